@@ -218,8 +218,12 @@ impl GroupEncoding for K256 {
     type Repr = CompressedPoint;
 
     fn from_bytes(bytes: &Self::Repr) -> CtOption<Self> {
+        // only the SEC1 tags 0x00 (identity), 0x02, 0x03 are canonical for this fixed-width encoding
+        let tag_ok = Choice::from(matches!(bytes.0[0], 0 | 2 | 3) as u8);
         let compressed = k256::CompressedPoint::from(bytes.0);
-        <ProjectivePoint as K256GroupEncoding>::from_bytes(&compressed).map(Self)
+        <ProjectivePoint as K256GroupEncoding>::from_bytes(&compressed)
+            .map(Self)
+            .and_then(|p| CtOption::new(p, tag_ok))
     }
 
     fn from_bytes_unchecked(bytes: &Self::Repr) -> CtOption<Self> {
@@ -236,8 +240,11 @@ impl GroupEncoding for K256Affine {
     type Repr = CompressedPoint;
 
     fn from_bytes(bytes: &Self::Repr) -> CtOption<Self> {
+        let tag_ok = Choice::from(matches!(bytes.0[0], 0 | 2 | 3) as u8);
         let compressed = k256::CompressedPoint::from(bytes.0);
-        <AffinePoint as K256GroupEncoding>::from_bytes(&compressed).map(Self)
+        <AffinePoint as K256GroupEncoding>::from_bytes(&compressed)
+            .map(Self)
+            .and_then(|p| CtOption::new(p, tag_ok))
     }
 
     fn from_bytes_unchecked(bytes: &Self::Repr) -> CtOption<Self> {
